@@ -6,6 +6,7 @@ payload: {"cases": [{"list": [str], "fracs": {iso3: float | "nan"}, "default": f
 result per case: {"err": kind} | {"net_pop", "net_fed", "keys", "calls", "world", "run_skip"}
 Nothing is written to /repo: no pptx, no csv (create_pptx_with_all_countries=False, save_all_results=False)."""
 import math
+import os
 import types
 
 import numpy as np
@@ -55,13 +56,43 @@ def read_file(path, *a, **k):
     return STATE["world"].copy()
 
 
+class _Series:
+    kcals = [0.0, 1.0]
+
+
+class FakeResults:
+    """just enough of an Interpreter for save_all_results_to_csv (the only consumer in run_model_no_trade)"""
+
+    def __init__(self, code):
+        self.iso3 = code
+        self.animal_population_dictionary = {"cattle": [1, 2]}
+        self.meat_dictionary = {"beef": [1.0, 2.0]}
+        self.percent_people_fed = 0.0
+
+    def __getattr__(self, k):
+        if k.endswith("_kcals_equivalent"):
+            return _Series()
+        raise AttributeError(k)
+
+
+def private_root():
+    """files run_model_no_trade may write (save_all_results) go to $VERIF_WORK, never to the repository"""
+    work = os.environ.get("VERIF_WORK", "/verif/work/C15")
+    root = os.path.join(work, "c15root_%d" % os.getpid())
+    if not os.path.isdir(root):
+        os.makedirs(os.path.join(root, "results"))
+        os.symlink(os.path.join(os.getcwd(), "data"), os.path.join(root, "data"))
+    M.repo_root = root
+    return os.path.join(root, "results")
+
+
 def stub(self, country_data, scenario_option, create_pptx_with_all_countries, show_country_figures, save_all_results,
          figure_save_postfix="", title="Untitled"):
     code = country_data["iso3"]
     STATE["calls"].append(code)
     f = STATE["fracs"].get(code, STATE["default"])
     f = float("nan") if f == "nan" else float(f)
-    return (f, "stubbed scenario", {"iso3": code})
+    return (f, "stubbed scenario", FakeResults(code))
 
 
 def num(x):
@@ -83,6 +114,9 @@ def run_case(case):
         RUNNER["obj"] = M.ScenarioRunnerNoTrade()
     runner = RUNNER["obj"]
     out = {}
+    resdir = private_root()
+    for f in os.listdir(resdir):
+        os.remove(os.path.join(resdir, f))
     try:
         with quiet():
             out["run_skip"] = [list(x) for x in runner.get_countries_to_run_and_skip(list(case["list"]))]
@@ -109,9 +143,11 @@ def run_case(case):
                 world, net_pop, net_fed, results = runner.run_model_no_trade(
                     title="verif_c15", create_pptx_with_all_countries=False, show_country_figures=False,
                     show_map_figures=False, add_map_slide_to_pptx=False, scenario_option=case["scenario_option"],
-                    countries_list=list(case["list"]), return_results=case.get("ret", True), save_all_results=False)
+                    countries_list=list(case["list"]), return_results=case.get("ret", True),
+                    save_all_results=bool(case.get("save", False)))
     except BaseException as e:
         return {"err": classify(e), "msg": str(e)[:200], "calls": list(STATE["calls"])}
+    out["saved_files"] = sorted(os.listdir(resdir))
     out["net_pop"] = num(net_pop)
     out["net_fed"] = num(net_fed)
     out["keys"] = list(results.keys())
